@@ -7,20 +7,20 @@ HOOK_COMMITS = ["afa3aa0"]
 THEOREMS = {
     "C01": ("TrVerif.Props.C01", ["Tr.C01", "Tr.C01_with", "Tr.C01_modulo_cleanup", "Tr.cleanupPreserves", "Tr.revScanList_inv", "Tr.reconLoop_valid", "Tr.emit_valid"]),
     "C02": ("TrVerif.Props.C02", ["Tr.C02_partial", "Tr.C02_times", "Tr.C02_arrival", "Tr.C02_first_wait", "Tr.stepsOfLegs_transfer", "Tr.bestEgress_spec"]),
-    "C03": ("TrVerif.Props.NonVacuity", ["Tr.C03_optimal", "Tr.forwardSingle_optimal", "Tr.FwdDomain_dataset", "Tr.fwdStep1_FCβ", "Tr.fwdScanList1_FCβ", "Tr.bestEgress_le", "Tr.bestEgress_sound",
+    "C03": ("TrVerif.Props.NonVacuity", ["Tr.C07_scan_start", "Tr.C03_optimal", "Tr.forwardSingle_optimal", "Tr.FwdDomain_dataset", "Tr.fwdStep1_FCβ", "Tr.fwdScanList1_FCβ", "Tr.bestEgress_le", "Tr.bestEgress_sound",
                                          "Tr.reach_reverse", "Tr.singleReverse_gen", "Tr.Reach.usable", "Tr.journeyOK_arrival", "Tr.fwdScanList_inv", "Tr.C01", "Tr.C02_times", "Tr.C02_arrival",
                                          "Tr.nv_hypotheses", "Tr.nv_hypotheses_complete", "Tr.nv_admissible_forward"]),
-    "C04": ("TrVerif.Props.NonVacuity", ["Tr.C04_optimal", "Tr.singleReverse_optimal", "Tr.revStep1_RCθ", "Tr.revScanList1_RCθ", "Tr.bestAccess_ge", "Tr.init_RCθ",
+    "C04": ("TrVerif.Props.NonVacuity", ["Tr.C07_scan_start", "Tr.C04_optimal", "Tr.singleReverse_optimal", "Tr.revStep1_RCθ", "Tr.revScanList1_RCθ", "Tr.bestAccess_ge", "Tr.init_RCθ",
                                          "Tr.revIndex_spec", "Tr.C01", "Tr.C02_times", "Tr.C02_arrival", "Tr.nv_hypotheses", "Tr.nv_hypotheses_reverse", "Tr.nv_admissible", "Tr.nv_results"]),
     "C06": ("TrVerif.Props.C06", ["Tr.C06_totals", "Tr.C06_route"]),
-    "C07": ("TrVerif.Props.C07All", ["Tr.C07_route_no_service_to_destination", "Tr.revScan_count_zero", "Tr.revIndex_spec", "Tr.C07_route_strings", "Tr.C07_accessibility_strings", "Tr.C07_enum_order", "Tr.C07_access",
+    "C07": ("TrVerif.Props.C07All", ["Tr.C07_scan_start", "Tr.C07_route_no_service_to_destination", "Tr.revScan_count_zero", "Tr.revIndex_spec", "Tr.C07_route_strings", "Tr.C07_accessibility_strings", "Tr.C07_enum_order", "Tr.C07_access",
                                       "Tr.C07_route_no_service_from_origin", "Tr.C07_no_service_from_origin_data", "Tr.C07_no_service_from_origin",
                                       "Tr.C07_no_service_at_place_forward", "Tr.fwdScan_count_zero", "Tr.fwdIndex_spec", "Tr.before_start_early"]),
     # module NonVacuity imports C08Complete and C09Complete (hence C02, C07Data, C08, C09, C18): a concrete dataset meeting every hypothesis, on which all four calculations succeed
-    "C08": ("TrVerif.Props.NonVacuity", ["Tr.C08_sound", "Tr.C08_complete", "Tr.C08_earliest", "Tr.forwardNode_sound", "Tr.fwdScanList_inv", "Tr.fwdStep_inv", "Tr.init_FInv",
+    "C08": ("TrVerif.Props.NonVacuity", ["Tr.C07_scan_start", "Tr.C08_sound", "Tr.C08_complete", "Tr.C08_earliest", "Tr.forwardNode_sound", "Tr.fwdScanList_inv", "Tr.fwdStep_inv", "Tr.init_FInv",
                                          "Tr.fwdScanList_FC", "Tr.fwdStep_FC", "Tr.init_FC", "Tr.FW_dataset", "Tr.fwdIndex_spec",
                                          "Tr.nv_hypotheses", "Tr.nv_hypotheses_complete", "Tr.nv_results"]),
-    "C09": ("TrVerif.Props.NonVacuity", ["Tr.C09_sound", "Tr.C09_complete", "Tr.C09_latest", "Tr.reverseNode_sound", "Tr.collectNodes_sorted", "Tr.collectNodes_mem",
+    "C09": ("TrVerif.Props.NonVacuity", ["Tr.C07_scan_start", "Tr.C09_sound", "Tr.C09_complete", "Tr.C09_latest", "Tr.reverseNode_sound", "Tr.collectNodes_sorted", "Tr.collectNodes_mem",
                                          "Tr.revScanList_RC", "Tr.revStep_RC", "Tr.init_RC", "Tr.RW_dataset", "Tr.revIndex_spec",
                                          "Tr.nv_hypotheses", "Tr.nv_hypotheses_reverse", "Tr.nv_results"]),
     "C10": ("TrVerif.Props.C10", ["Tr.C10_alternatives"]),
